@@ -1,9 +1,12 @@
 SPECIFICATION Spec
 CONSTANTS
-  Pairs = {"r1n1", "r1n2", "r2n1", "r2n2"}
+  Res = {"r1", "r2"}
+  Nss = {"n1", "n2"}
+  ClusterScoped = {}
   MaxRevisions = 1000000
   MaxDeaths = 0
   HoldLock = TRUE
 VIEW NoCount
 INVARIANT Coverage
+INVARIANT NoF34
 CHECK_DEADLOCK FALSE
